@@ -36,6 +36,8 @@ func deniedPackage(fn *ssa.Function) string {
 		return ""
 	}
 	switch p := fn.Pkg.Pkg.Path(); p {
+	case "regexp", "github.com/grafana/regexp", "regexp/syntax", "github.com/grafana/regexp/syntax":
+		return fn.Pkg.Pkg.Path()
 	case "sync", "sync/atomic", "runtime", "reflect", "internal/reflectlite", "os", "syscall", "time", "unsafe", "internal/poll", "net", "testing", "context":
 		if p == "context" || p == "time" {
 			// pure helpers of these are fine (Background, Duration methods, ...)
@@ -147,13 +149,13 @@ func (fr *frame) fmtArg(v value) interface{} {
 			return nil
 		}
 		// error / Stringer
-		if m := fr.i.prog.LookupMethod(x.t, nil, "Error"); m != nil && m.Signature.Params().Len() == 0 {
+		if m := fr.i.findMethod(x.t, "Error"); m != nil && m.Signature.Params().Len() == 0 {
 			r := call(fr.i, fr, token.NoPos, m, []value{x.v})
 			if s, ok := r.(string); ok {
 				return fmtErr(s)
 			}
 		}
-		if m := fr.i.prog.LookupMethod(x.t, nil, "String"); m != nil && m.Signature.Params().Len() == 0 && m.Signature.Results().Len() == 1 {
+		if m := fr.i.findMethod(x.t, "String"); m != nil && m.Signature.Params().Len() == 0 && m.Signature.Results().Len() == 1 {
 			r := call(fr.i, fr, token.NoPos, m, []value{x.v})
 			if s, ok := r.(string); ok {
 				return fmtStr(s)
@@ -235,6 +237,18 @@ func init() {
 	reg("runtime.KeepAlive", func(fr *frame, args []value) value { return nil })
 	reg("github.com/efficientgo/core/errors.newStackTrace", func(fr *frame, args []value) value { return []value(nil) })
 
+	// ---- regexp: compiled patterns are opaque; using one is unsupported
+	for _, n := range []string{"regexp.MustCompile", "regexp.Compile", "github.com/grafana/regexp.MustCompile", "github.com/grafana/regexp.Compile"} {
+		isMust := strings.Contains(n, "Must")
+		reg(n, func(fr *frame, args []value) value {
+			var cell value = structure{str(args[0])}
+			if isMust {
+				return &cell
+			}
+			return tuple{&cell, iface{}}
+		})
+	}
+
 	// ---- fmt
 	reg("fmt.Sprintf", func(fr *frame, args []value) value {
 		return fr.sprintf(str(args[0]), args[1].([]value))
@@ -246,7 +260,7 @@ func init() {
 		var wrapped value
 		if strings.Contains(str(args[0]), "%w") {
 			for _, x := range a {
-				if it, ok := x.(iface); ok && it.t != nil && fr.i.prog.LookupMethod(it.t, nil, "Error") != nil {
+				if it, ok := x.(iface); ok && it.t != nil && fr.i.findMethod(it.t, "Error") != nil {
 					wrapped = it
 				}
 			}
@@ -420,7 +434,7 @@ func init() {
 	reg("(*context.cancelCtx).Value", func(fr *frame, args []value) value {
 		st := (*ptr(args[0])).(structure)
 		parent := st[0].(iface)
-		m := fr.i.prog.LookupMethod(parent.t, nil, "Value")
+		m := fr.i.findMethod(parent.t, "Value")
 		return call(fr.i, fr, token.NoPos, m, []value{parent.v, args[1]})
 	})
 	reg("(*context.cancelCtx).String", func(fr *frame, args []value) value { return "context.WithCancel" })
@@ -433,6 +447,78 @@ func init() {
 		}
 		wall, ext := st[0].(uint64), st[1].(int64)
 		return timeUnixMilli(wall, ext)
+	})
+	reg("github.com/prometheus/prometheus/model/timestamp.FromTime", func(fr *frame, args []value) value {
+		st := args[0].(structure)
+		if w, ok := st[0].(uint64); ok && w == symTimeWall {
+			return st[1]
+		}
+		return timeUnixMilli(st[0].(uint64), st[1].(int64))
+	})
+	reg("github.com/prometheus/prometheus/model/timestamp.Time", func(fr *frame, args []value) value {
+		return structure{symTimeWall, args[0], (*value)(nil)}
+	})
+	mkTime := func(ms value) value { return structure{symTimeWall, ms, (*value)(nil)} }
+	timeMs := func(fr *frame, v value) value {
+		st := v.(structure)
+		if w, ok := st[0].(uint64); ok && w == symTimeWall {
+			return st[1]
+		}
+		return timeUnixMilli(st[0].(uint64), st[1].(int64))
+	}
+	reg("time.Unix", func(fr *frame, args []value) value {
+		sec, nsec := args[0].(int64), args[1].(int64)
+		return mkTime(sec*1000 + nsec/1000000)
+	})
+	reg("time.UnixMilli", func(fr *frame, args []value) value { return mkTime(args[0]) })
+	reg("(time.Time).UTC", func(fr *frame, args []value) value { return args[0] })
+	reg("(time.Time).Local", func(fr *frame, args []value) value { return args[0] })
+	reg("(time.Time).IsZero", func(fr *frame, args []value) value {
+		st := args[0].(structure)
+		if w, ok := st[0].(uint64); ok && w == symTimeWall {
+			return false
+		}
+		return st[0].(uint64) == 0 && st[1].(int64) == 0
+	})
+	reg("(time.Time).Unix", func(fr *frame, args []value) value {
+		ms, ok := timeMs(fr, args[0]).(int64)
+		if !ok {
+			panic(pathAbort{kind: abortUnsupported, msg: "(time.Time).Unix on symbolic time"})
+		}
+		q := ms / 1000
+		if ms%1000 < 0 {
+			q--
+		}
+		return q
+	})
+	reg("(time.Time).Nanosecond", func(fr *frame, args []value) value {
+		ms, ok := timeMs(fr, args[0]).(int64)
+		if !ok {
+			panic(pathAbort{kind: abortUnsupported, msg: "(time.Time).Nanosecond on symbolic time"})
+		}
+		r := ms % 1000
+		if r < 0 {
+			r += 1000
+		}
+		return int(r * 1000000)
+	})
+	reg("(time.Time).Add", func(fr *frame, args []value) value {
+		ms := timeMs(fr, args[0])
+		dms := binop(fr.i, token.QUO, nil, args[1], int64(1000000))
+		return mkTime(binop(fr.i, token.ADD, nil, ms, dms))
+	})
+	reg("(time.Time).Sub", func(fr *frame, args []value) value {
+		d := binop(fr.i, token.SUB, nil, timeMs(fr, args[0]), timeMs(fr, args[1]))
+		return binop(fr.i, token.MUL, nil, d, int64(1000000))
+	})
+	reg("(time.Time).Before", func(fr *frame, args []value) value {
+		return binop(fr.i, token.LSS, nil, timeMs(fr, args[0]), timeMs(fr, args[1]))
+	})
+	reg("(time.Time).After", func(fr *frame, args []value) value {
+		return binop(fr.i, token.GTR, nil, timeMs(fr, args[0]), timeMs(fr, args[1]))
+	})
+	reg("(time.Time).Equal", func(fr *frame, args []value) value {
+		return binop(fr.i, token.EQL, nil, timeMs(fr, args[0]), timeMs(fr, args[1]))
 	})
 	reg("time.Now", func(fr *frame, args []value) value {
 		panic(pathAbort{kind: abortUnsupported, msg: "time.Now in encoded code"})
@@ -518,7 +604,7 @@ func (i *interpreter) errorsUnwrap(fr *frame, e iface) value {
 	if e.t == nil {
 		return iface{}
 	}
-	m := i.prog.LookupMethod(e.t, nil, "Unwrap")
+	m := i.findMethod(e.t, "Unwrap")
 	if m == nil || m.Signature.Results().Len() != 1 {
 		return iface{}
 	}
@@ -536,7 +622,7 @@ func (i *interpreter) errorsIs(fr *frame, err, target iface) bool {
 		if types.Comparable(err.t) && sameType(err.t, target.t) && equals(err.t, err.v, target.v) {
 			return true
 		}
-		if m := i.prog.LookupMethod(err.t, nil, "Is"); m != nil && m.Signature.Params().Len() == 1 {
+		if m := i.findMethod(err.t, "Is"); m != nil && m.Signature.Params().Len() == 1 {
 			if r, ok := call(i, fr, token.NoPos, m, []value{err.v, target}).(bool); ok && r {
 				return true
 			}
@@ -726,4 +812,13 @@ func registerMath() {
 		a, b := math.Frexp(f)
 		return tuple{a, b}
 	})
+}
+
+// findMethod returns the implementation of the exported method name on type t, or nil.
+func (i *interpreter) findMethod(t types.Type, name string) *ssa.Function {
+	sel := i.prog.MethodSets.MethodSet(t).Lookup(nil, name)
+	if sel == nil {
+		return nil
+	}
+	return i.prog.MethodValue(sel)
 }
